@@ -235,7 +235,7 @@ def tlc_printed(res, tag="GEN"):
     return out
 
 
-def shard_events(events, n, stateless, reset_op="reset"):
+def shard_events(events, n, stateless, reset_op=("reset", "tmpl")):
     """Split a trace into <= n contiguous shards; stateful traces are only cut before a reset event."""
     if not events:
         return []
@@ -243,7 +243,7 @@ def shard_events(events, n, stateless, reset_op="reset"):
     target = (len(events) + n - 1) // n
     shards, cur, base = [], [], 0
     for i, e in enumerate(events):
-        if cur and len(cur) >= target and (stateless or e.get("op") == reset_op):
+        if cur and len(cur) >= target and (stateless or e.get("op") in reset_op):
             shards.append((base, cur))
             base, cur = i, []
         cur.append(e)
